@@ -387,7 +387,8 @@ class FakeBroker:
 
 def failure_state(cls, msg, unsafe, parents=None, tb_text=None):
     """getStateToCopy of the real FailureSlicer on a real Failure; optionally with a substituted parents list /
-    traceback text (to reach lengths that real class hierarchies do not reach)"""
+    traceback text (to reach lengths that real class hierarchies do not reach).
+    -> (state or the exception class name it raised, inputs) where inputs = what getStateToCopy reads from the Failure"""
     try:
         raise cls(msg)
     except Exception:
@@ -396,5 +397,14 @@ def failure_state(cls, msg, unsafe, parents=None, tb_text=None):
         f.parents = list(parents)
     if tb_text is not None:
         f.getTraceback = lambda *a, **k: tb_text
-    st = call.FailureSlicer(f).getStateToCopy(f, FakeBroker(unsafe))
-    return st, f
+    try:
+        text = ("ok", str(f.value))
+    except Exception as e:
+        text = ("raises", type(e).__name__)
+    inputs = dict(type=reflect.qual(f.type), str=text, fallback=reflect.safe_str(f.value),
+                  stack=f.getTraceback() if unsafe else "", parents=list(f.parents))
+    try:
+        st = call.FailureSlicer(f).getStateToCopy(f, FakeBroker(unsafe))
+    except Exception as e:
+        st = type(e).__name__
+    return st, inputs
